@@ -76,6 +76,11 @@ class Check:
     def floor(self, what, count, minimum):
         """Instance floor: fewer instances than were confirmed by hand means the rule went blind."""
         self.coverage_extra.setdefault('instance_counts', {})[what] = count
+        if count < minimum and self.violations:
+            # a rule went blind after a definite violation was already decided on this tree: the verdict stands, the
+            # blind rule is reported with it
+            self.note('rule matched %d instances of "%s" (expected at least %d) - not decided on this tree' % (count, what, minimum))
+            return
         if count < minimum:
             raise AnalysisBroken('%s: rule matched %d instances of "%s", expected at least %d - '
                                  'the rule no longer sees the code it was written for'
